@@ -2,7 +2,7 @@
 import json, os, re, copy
 import vlib
 
-MC_CFGS = ["A", "Af", "B", "C", "D"]
+MC_CFGS = ["A", "Af", "B", "C", "D", "E", "F"]
 
 
 def model_check(ctx, cfgs):
